@@ -15,3 +15,12 @@ func With(k int, f func()) {
 	defer set(-1)
 	f()
 }
+
+// WithSwitch runs f while the first n map iterations start at slot k1 and all later ones at slot k2.
+func WithSwitch(k1, n, k2 int, f func()) {
+	mu.Lock()
+	defer mu.Unlock()
+	setSwitch(k1, n, k2)
+	defer set(-1)
+	f()
+}
